@@ -344,7 +344,7 @@ impl Mapper<Size1GiB> for RecursivePageTable<'_> {
             return Err(UnmapError::ParentEntryHugePage);
         }
 
-        let frame = PhysFrame::from_start_address(p3_entry.addr())
+        let frame = PhysFrame::from_start_address(p3_entry.huge_page_addr())
             .map_err(|AddressNotAligned| UnmapError::InvalidFrameAddress(p3_entry.addr()))?;
 
         p3_entry.set_unused();
@@ -372,7 +372,8 @@ impl Mapper<Size1GiB> for RecursivePageTable<'_> {
             // the entry points to a level 2 table, not to a 1GiB page
             return Err(FlagUpdateError::ParentEntryHugePage);
         }
-        p3[page.p3_index()].set_flags(flags | Flags::HUGE_PAGE);
+        let entry = &mut p3[page.p3_index()];
+        entry.set_addr(entry.huge_page_addr(), flags | Flags::HUGE_PAGE);
 
         Ok(MapperFlush::new(page))
     }
@@ -428,7 +429,7 @@ impl Mapper<Size1GiB> for RecursivePageTable<'_> {
             return Err(TranslateError::ParentEntryHugePage);
         }
 
-        PhysFrame::from_start_address(p3_entry.addr())
+        PhysFrame::from_start_address(p3_entry.huge_page_addr())
             .map_err(|AddressNotAligned| TranslateError::InvalidFrameAddress(p3_entry.addr()))
     }
 }
@@ -486,7 +487,7 @@ impl Mapper<Size2MiB> for RecursivePageTable<'_> {
             return Err(UnmapError::ParentEntryHugePage);
         }
 
-        let frame = PhysFrame::from_start_address(p2_entry.addr())
+        let frame = PhysFrame::from_start_address(p2_entry.huge_page_addr())
             .map_err(|AddressNotAligned| UnmapError::InvalidFrameAddress(p2_entry.addr()))?;
 
         p2_entry.set_unused();
@@ -525,7 +526,8 @@ impl Mapper<Size2MiB> for RecursivePageTable<'_> {
             return Err(FlagUpdateError::ParentEntryHugePage);
         }
 
-        p2[page.p2_index()].set_flags(flags | Flags::HUGE_PAGE);
+        let entry = &mut p2[page.p2_index()];
+        entry.set_addr(entry.huge_page_addr(), flags | Flags::HUGE_PAGE);
 
         Ok(MapperFlush::new(page))
     }
@@ -611,7 +613,7 @@ impl Mapper<Size2MiB> for RecursivePageTable<'_> {
             return Err(TranslateError::ParentEntryHugePage);
         }
 
-        PhysFrame::from_start_address(p2_entry.addr())
+        PhysFrame::from_start_address(p2_entry.huge_page_addr())
             .map_err(|AddressNotAligned| TranslateError::InvalidFrameAddress(p2_entry.addr()))
     }
 }
